@@ -37,6 +37,7 @@ type Prog struct {
 	fieldSt      map[string][]ssa.Value
 	fileAST      map[string]*ast.File
 	overlayFiles map[string][]byte
+	Norm         *NormReport
 }
 
 // LoadOpts selects platform and overlays.
@@ -71,6 +72,10 @@ func goEnv(o LoadOpts) []string {
 // Load type-checks ./... of the repository and builds SSA. Any type error, or fewer
 // packages than the repository is known to have, is a failure of the check itself.
 func Load(o LoadOpts) (*Prog, error) {
+	var norm *NormReport
+	if !o.NoSSA {
+		o.Overlay, norm = Normalise(o, loadInventory())
+	}
 	cfg := &packages.Config{
 		Mode:    packages.LoadAllSyntax,
 		Dir:     o.Dir,
@@ -98,7 +103,7 @@ func Load(o LoadOpts) (*Prog, error) {
 	if len(pkgs) < 25 {
 		return nil, fmt.Errorf("only %d packages loaded from %s (expected >= 25)", len(pkgs), o.Dir)
 	}
-	p := &Prog{overlayFiles: o.Overlay, Dir: o.Dir, Pkgs: pkgs, byPath: map[string]*packages.Package{}, ssaPkg: map[string]*ssa.Package{}, GOOS: o.GOOS, GOARCH: o.GOARCH, fileAST: map[string]*ast.File{}}
+	p := &Prog{Norm: norm, overlayFiles: o.Overlay, Dir: o.Dir, Pkgs: pkgs, byPath: map[string]*packages.Package{}, ssaPkg: map[string]*ssa.Package{}, GOOS: o.GOOS, GOARCH: o.GOARCH, fileAST: map[string]*ast.File{}}
 	if len(pkgs) > 0 {
 		p.Fset = pkgs[0].Fset
 	}
